@@ -161,6 +161,33 @@ def gen_source(blists, defmask, docmask, generic):
     return src
 
 
+_TL = []
+
+
+def _inherited_tables(c):
+    """{member name: name of the class it is shown as inherited from} as rendered by ClassPage.baseTables"""
+    import importlib.resources as ir
+    from twisted.web.template import tags, slot
+    from pydoctor.templatewriter import TemplateLookup
+    from pydoctor.templatewriter.pages import ClassPage
+    from pydoctor.stanutils import flatten
+    from lib import crawl
+    if not _TL:
+        _TL.append(TemplateLookup(ir.files("pydoctor.themes") / "base"))
+    page = ClassPage(c, _TL[0])
+    out = {}
+    for t in page.baseTables(None, tags.div(tags.span(class_="basename")(slot("baseName")), slot("baseTable"))):
+        root = crawl.parse_html(flatten(t))
+        head = root.first(lambda e: e.tag == "span" and "basename" in e.cls())
+        source = head.alltext().split(" (via")[0].strip() if head is not None else "?"
+        for tr in root.walk():
+            if tr.tag == "tr":
+                a = tr.first(lambda e: e.tag == "a" and "href" in e.attrs)
+                if a is not None:
+                    out[a.alltext().strip()] = source
+    return out
+
+
 def check_model(blists, defmask, docmask, generic=False):
     n = len(blists)
     src = gen_source(blists, defmask, docmask, generic)
@@ -211,6 +238,15 @@ def check_model(blists, defmask, docmask, generic=False):
         if (f.parent.name if f is not None else None) != wantdef:
             note(why="find() attributes m to the wrong class", src=src, cls=nm, got=f and f.parent.name, want=wantdef)
             return False
+        # what the class page shows as inherited: member m, when the class does not define it, sits in the table
+        # "Inherited from <the first class along Python's MRO that defines it>"
+        inherited_shown = _inherited_tables(c)
+        wantinh = {}
+        if "m" not in vars(pc) and wantdef is not None:
+            wantinh = {"m": wantdef}
+        if pyerr is None and inherited_shown != wantinh:
+            note(why="the 'Inherited from' tables of the class page differ from attribute lookup along the MRO", src=src, cls=nm, got=inherited_shown, want=wantinh)
+            return False
         if "m" in c.contents:
             o = c.contents["m"]
             # docsources must follow the linearisation
@@ -252,7 +288,7 @@ def _parts_model():
     parts=_parts_model, timeout=(200, 2400), cls="E", tracing="concrete-after-choice", twin="first",
     code=["pydoctor.model.compute_mro", "pydoctor.model.Class._init_mro", "pydoctor.model.Class.mro", "pydoctor.model.Class.find",
           "pydoctor.model.Inheritable.docsources", "pydoctor.model.get_docstring", "pydoctor.astbuilder.ModuleVistor.visit_ClassDef",
-          "pydoctor.mro.mro", "pydoctor.templatewriter.pages.get_override_info", "pydoctor.templatewriter.util.overriding_subclasses"],
+          "pydoctor.mro.mro", "pydoctor.templatewriter.pages.get_override_info", "pydoctor.templatewriter.util.overriding_subclasses", "pydoctor.templatewriter.pages.ClassPage.baseTables/baseName", "pydoctor.templatewriter.util.class_members"],
     bounds={"quick": "4 classes: all 160 ordered-base hierarchies x member-definition mask (4 bits) x docstring mask restricted to defmask x generic-subscripted base or not",
             "thorough": "5 classes: all 10 400 hierarchies x 6 member/docstring placements x generic or not"},
     outside="bases outside the module, forward references, metaclasses, >5 classes",
